@@ -1,9 +1,84 @@
-(* Props/C08.v -- property theorems for C08.  Only statements, each closed by [exact]. *)
+(* Props/C08.v -- property theorems for C08 (AutoStream modes: Never strips,
+   AlwaysAnsi / Always forward unchanged).  Only statements, each closed by [exact].
+
+   Vocabulary (Proofs/StreamAuto.v): ss_run = StripStream driven directly (the
+   fold of ss_op); pass_run = the inner writer driven directly (the fold of
+   pass_op); pass_data b o = the bytes operation o hands over (write_vectored:
+   every buffer when the inner writer has real vectored writes, b = true, else
+   the first non-empty one); pass_res = the answer when nothing fails;
+   strip_data / strip_res = the same for the strip arm.  In the model the inner
+   writer is threaded through run_ops, so "taking the inner writer back" is the
+   writer component of the result. *)
 From Coq Require Import NArith List Bool.
-From AV Require Import Generated.Table Spec.Vt Proofs.TableFacts.
+From AV Require Import Generated.Table Spec.Io Spec.Strip Model.Base Model.Utf8parse Model.Parser Model.Strip
+  Model.Stream Proofs.TableFacts Proofs.StripMachine Proofs.StripSim Proofs.StreamIo Proofs.Stream
+  Proofs.StreamAuto.
 Import ListNotations.
 Local Open Scope N_scope.
 
+(* Never: any operation sequence, any script: same results, same inner writer
+   (script, received bytes, call history), same stream state as StripStream *)
+Theorem c08_never_is_strip :
+  forall b d s w ops, run_ops b (auto_mode CNever d) s w ops = ss_run s w ops.
+Proof. exact never_is_strip. Qed.
+
+(* AlwaysAnsi and Always: the operations applied to the inner writer itself; with
+   an accept-all writer every call succeeds and the bytes arrive unchanged *)
+Theorem c08_always_ansi_is_identity :
+  forall b d c s w ops,
+  c = CAlwaysAnsi \/ c = CAlways ->
+  run_ops b (auto_mode c d) s w ops = Some (s, fst (pass_run b w ops), snd (pass_run b w ops)) /\
+  (w_script w = [] ->
+   snd (pass_run b w ops) = map (pass_res b) ops /\
+   w_received (fst (pass_run b w ops)) = w_received w ++ concat (map (pass_data b) ops)).
+Proof. exact always_ansi_is_identity. Qed.
+
+Theorem c08_always_eq_always_ansi :
+  forall b d s w ops,
+  run_ops b (auto_mode CAlways d) s w ops = run_ops b (auto_mode CAlwaysAnsi d) s w ops.
+Proof. exact always_eq_always_ansi. Qed.
+
+Theorem c08_current_choice :
+  forall d,
+  current_choice (auto_mode CNever d) = CNever /\
+  current_choice (auto_mode CAlwaysAnsi d) = CAlwaysAnsi /\
+  current_choice (auto_mode CAlways d) = CAlwaysAnsi /\
+  current_choice (auto_mode CAuto d) = match d with CNever => CNever | _ => CAlwaysAnsi end.
+Proof. exact current_choice_spec. Qed.
+
+(* the reported choice is the arm in force *)
+Theorem c08_reported_mode_in_force :
+  forall b m s w ops,
+  (current_choice m = CNever -> run_ops b m s w ops = ss_run s w ops) /\
+  (current_choice m = CAlwaysAnsi ->
+   run_ops b m s w ops = Some (s, fst (pass_run b w ops), snd (pass_run b w ops))).
+Proof. exact reported_mode_in_force. Qed.
+
+(* Never, fresh stream, accept-all inner writer, ANY interleaving of write,
+   write_all, write_vectored, write_fmt and flush: every call succeeds and the
+   inner writer has received exactly spec_strip of all the data (C03's fold law) *)
+Theorem c08_never_delivers_spec_strip :
+  forall b d w ops,
+  w_script w = [] -> bytes_ok (concat (map strip_data ops)) ->
+  exists s' w',
+    run_ops b (auto_mode CNever d) sb_new w ops = Some (s', w', map strip_res ops) /\
+    w_received w' = w_received w ++ spec_strip (concat (map strip_data ops)).
+Proof. exact never_delivers_spec_strip. Qed.
+
+(* finite fact used by the simulation behind kept = spec_strip: the generated table is
+   the by-range VT model (complete enumeration of states x 256 bytes) *)
 Theorem c08_table_is_williams :
   forall s b, b < 256 -> trans_matches s b = true.
 Proof. exact table_is_williams. Qed.
+
+(* non-vacuity: the same three operations under Never and under AlwaysAnsi *)
+Theorem c08_example :
+  (exists s' w' rs,
+     run_ops false (auto_mode CNever CAuto) sb_new (writer_of [])
+       [OWrite [97; 27; 91]; OWriteAll [49; 109; 98]; OWriteFmt [[27; 91; 109]; [99]]] = Some (s', w', rs) /\
+     w_received w' = [97; 98; 99] /\ rs = [ROkN 3; ROk; ROk]) /\
+  (exists s' w' rs,
+     run_ops false (auto_mode CAlwaysAnsi CAuto) sb_new (writer_of [])
+       [OWrite [97; 27; 91]; OWriteAll [49; 109; 98]; OWriteFmt [[27; 91; 109]; [99]]] = Some (s', w', rs) /\
+     w_received w' = [97; 27; 91; 49; 109; 98; 27; 91; 109; 99] /\ rs = [ROkN 3; ROk; ROk]).
+Proof. vm_compute. repeat split; repeat eexists. Qed.
